@@ -66,6 +66,11 @@ def gen_program(rng, nmods=2, nfuncs=4, recursion=False, sync=False, big=False, 
         s = _Src()
         s.add(0, '# host module %s (generated)' % m)
         s.add(0, '')
+        # a third of the modules are long files: the code starts beyond line 256 (CPython shares int objects only up
+        # to 256), some far beyond
+        pad = rng.choice([0, 0, 0, 0, 300, 300, 1000, 70000]) if rng.random() < 0.8 else 0
+        for _ in range(pad):
+            s.add(0, '')
         info = {'def': {}, 'body': {}, 'stmt': [], 'dead': [], 'kinds': {}, 'oneline': {}}
         names = ['f%d' % k for k in range(nfuncs)]
         hook_fn = None
@@ -166,9 +171,20 @@ def _stmt(rng, s, ind, info, k, nfuncs, mods, me, depth, sync):
         _stmt(rng, s, ind + 1, info, k, nfuncs, mods, me, depth + 1, sync)
         info['stmt'].append(s.add(ind, 'else:'))
         _stmt(rng, s, ind + 1, info, k, nfuncs, mods, me, depth + 1, sync)
-    elif r < 0.64:
+    elif r < 0.58:
         info['stmt'].append(s.add(ind, 'for i in range(%d):' % rng.randint(1, 3)))
         _stmt(rng, s, ind + 1, info, k, nfuncs, mods, me, depth + 1, sync)
+    elif r < 0.64:
+        # loops written on ONE line: consecutive `line` events of the frame carry the same line number
+        q = rng.random()
+        if q < 0.3:
+            info['stmt'].append(s.add(ind, 'for i in range(%d): x = x + 1' % rng.randint(2, 4)))
+        elif q < 0.55:
+            info['stmt'].append(s.add(ind, 'while x %% %d != 0: x = x + 1' % rng.choice([3, 4, 5])))
+        elif q < 0.8 and callee_ok:
+            info['stmt'].append(s.add(ind, 'for i in range(%d): x = x + %s' % (rng.randint(2, 3), callee())))
+        else:
+            info['stmt'].append(s.add(ind, 'for i in range(%d): x = x + 1; x = x - 1' % rng.randint(2, 3)))
     elif r < 0.78 and callee_ok:
         info['stmt'].append(s.add(ind, 'try:'))
         info['stmt'].append(s.add(ind + 1, 'x = x + %s' % callee()))
@@ -690,6 +706,17 @@ def run_program(host, entries, mode, trace, sched=None, before=None, after=None,
     return out
 
 
+def history_active(case):
+    """the tracepoints registered and not unregistered, by the registration history of the case"""
+    active = []
+    for op in case['history']:
+        if op[0] == 'add' and op[1] not in active:
+            active.append(op[1])
+        elif op[0] == 'remove' and op[1] in active:
+            active.remove(op[1])
+    return [tp for tp in case['tps'] if tp['id'] in active]
+
+
 def lifecycle_plan(case):
     """steps of a lifecycle case: the agent is installed (handler.start(): sys + threading settrace), T0 is started and
     runs under the `first` tracepoints, the tracepoint list becomes EMPTY, the middle threads are started in that
@@ -969,6 +996,30 @@ def clash(events):
     return False
 
 
+def name_confusion(events, opens):
+    """instance of C15/recursion-name-match: at some line/return/exception event of an invocation, the context that is
+    (by frame identity) the most recently opened one still pending belongs to ANOTHER invocation of the same (file
+    name, function name) and is of a type that such an event completes — matching by name hands it to the wrong
+    invocation.  (Recursion in which every level opens its own context of the same type is not an instance: the
+    innermost context is on top at every such event.)"""
+    inv = invocations(events)
+    pending = []     # [invocation, key, is line context]
+    for i, e in enumerate(events):
+        k = e['kind']
+        key = (os.path.basename(e['path']), e['func'])
+        if k in ('line', 'return', 'exception'):
+            if pending:
+                top = pending[-1]
+                if top[1] == key and top[0] != inv[i] and (top[2] or k != 'line'):
+                    return True
+            # what frame identity completes at this event: the contexts of this invocation (top first)
+            while pending and pending[-1][0] == inv[i] and (pending[-1][2] or k != 'line'):
+                pending.pop()
+        if i in opens:
+            pending.append([inv[i], key, k == 'line'])
+    return False
+
+
 def stacked(events, opens):
     """NoStack violated: some invocation reaches its own plain `return` event with both its call-opened and a
     line-opened context pending.  `opens` = set of event indices at which a context is pushed (by the statement's
@@ -1141,6 +1192,47 @@ def run_case(case, hooks=False):
         except BaseException as e:  # noqa: B902
             return {'raised': 'building the configuration: %s: %s' % (type(e).__name__, e)}
         r.install(triggers)
+        idmap = {}
+        if case.get('history'):
+            # in-code registration: the real TracepointConfigService (add_custom / remove_custom), its updates run
+            # inline and reach the handler through the real listener
+            from concurrent.futures import Future
+            from deep.api.tracepoint.tracepoint_config import MetricDefinition
+
+            class Inline:
+                def submit_task(self, task, *args):
+                    f = Future()
+                    try:
+                        f.set_result(task(*args))
+                    except BaseException as e:  # noqa: B902
+                        f.set_exception(e)
+                    return f
+            r.handler.new_config([])
+            r.config.set_task_handler(Inline())
+            svc = r.config.tracepoints
+            by_id = {tp['id']: tp for tp in case['tps']}
+            uid_of = {}
+            for op in case['history']:
+                try:
+                    if op[0] == 'add':
+                        tp = by_id[op[1]]
+                        uid = svc.add_custom(tp['path'], tp['line'], dict(tp.get('args', {})), [],
+                                             [MetricDefinition(tp['id'] + '#' + m, 'COUNTER', expression='1')
+                                              for m in tp.get('metrics', [])])
+                        uid_of[op[1]] = uid
+                        idmap[uid] = op[1]
+                    elif op[0] == 'add_invalid':
+                        uid = svc.add_custom(op[1], op[2], {'stage': 'no_such_stage'}, [], [])
+                        idmap[uid] = 'invalid'
+                        uid_of.setdefault('invalid', []).append(uid)
+                    elif op[0] == 'remove':
+                        svc.remove_custom(uid_of[op[1]])
+                    elif op[0] == 'remove_invalid':
+                        for u in uid_of.get('invalid', []):
+                            svc.remove_custom(u)
+                except Exception as e:          # a rejected registration may raise: that is its whole effect
+                    if op[0] not in ('add_invalid', 'remove_invalid'):
+                        return {'raised': 'registration %s: %s: %s' % (op, type(e).__name__, e)}
         host.scripts = case.get('scripts', {})
         host.hits = {}
 
@@ -1210,6 +1302,10 @@ def run_case(case, hooks=False):
             out = run_program(host, entries, case['mode'], r.handler.trace_call, case.get('sched'),
                               before=before, after=after, sequential=case.get('sequential', False))
         effects = {t: canon_effects(host, ev) for t, ev in obs.effects.items()}
+        for ev in effects.values():
+            for o in ev:
+                if o.get('tp') in idmap:
+                    o['tp'] = idmap[o['tp']]
         obs.release()
         res = {'ref': ref, 'effects': effects, 'triggers': len(triggers),
                'host_same': (ref_out['ret'] == out['ret'] and ref_out['exc'] == out['exc']),
